@@ -17,10 +17,11 @@
     - [covered N c]  := every leaf of c is a leaf of N;
     - [sorted_cu l]  := Forall valid l /\ StronglySorted before l  (IsValid() of the library);
     - [limit_id e]   := e is odd and 0 < e <= 6*2^61 + 1 (a leaf id or the end sentinel). *)
-From Coq Require Import ZArith List Bool Sorted.
-From Geo Require Import Base.GoPrim Gen.CellID Model.CellUnion.
+From Coq Require Import ZArith List Bool Sorted Permutation.
+From Geo Require Import Base.GoPrim Gen.CellID Model.CellUnion Model.CellIndex Model.Intersect.
 From Geo Require Import Proofs.C11_Bits Proofs.C11_Cells Proofs.C11_Normalize Proofs.C11_Unique Proofs.C11_Search
-  Proofs.C11_SetOps Proofs.C11_Range Proofs.C11_Checks Proofs.C11_SetOps2 Proofs.C11_Denorm Proofs.C11_Examples.
+  Proofs.C11_SetOps Proofs.C11_Range Proofs.C11_Checks Proofs.C11_SetOps2 Proofs.C11_Denorm Proofs.C11_Examples
+  Proofs.C11_Index Proofs.C11_Index2 Proofs.C11_Index3 Proofs.C11_Index4 Proofs.C11_Find.
 Import ListNotations.
 Local Open Scope Z_scope.
 
@@ -199,17 +200,75 @@ Theorem level_is_thirty_minus_height : forall c s, cellform c s -> s2_CellID_Lev
 Proof. exact level_form. Qed.
 Print Assumptions level_is_thirty_minus_height.
 
-(** * Not yet proved in Coq (no Coq model; checked on every run by search [S] with the
-      independent leaf-interval oracle of harness/cmd/obs/c11).
+(** * CellIndex (s2/cell_index.go; model Model/CellIndex.v) ----------------------
+    [adds] are the (cellID, label) pairs in the order of the Add calls; [good_pair]: valid cell,
+    label >= 0.  [ci_Build adds] = (cellTree, rangeNodes) after Build.  A contents-iterator
+    visit [ci_visit tree rs st pos] = StartUnion on the range at index pos, then CellID()/Label()/
+    Next() until Done(); [pairs_of tree idxs] are the (cell, label) of tree nodes. *)
+Theorem cell_index_ranges_partition : forall adds, Forall good_pair adds ->
+  let rs := snd (ci_Build adds) in
+  StronglySorted Z.lt (map fst rs) /\ hd 0 (map fst rs) = first_leaf /\ last (map fst rs) 0 = end_leaf /\
+  forall x, first_leaf <= x < end_leaf ->
+    exists l1 rn rn' l2, rs = l1 ++ rn :: rn' :: l2 /\ fst rn <= x < fst rn'.
+Proof. exact index_ranges_partition. Qed.
+Print Assumptions cell_index_ranges_partition.
 
-  TODO cell_index_spec (s2/cell_index.go Build + CellIndexRangeIterator +
-       CellIndexContentsIterator + non-empty iteration; missing: a state-machine model of Build's
-       delta sort / label stack and of the iterators):
-    after Build, the range nodes partition [first leaf, sentinel); for every leaf x, the contents
-    iterator started on x's range enumerates exactly {(c,label) added | covers c x}; the non-empty
-    iterator skips exactly the ranges with no contents; StartUnion reports each (cell,label) once
-    over an increasing sweep.
+Theorem cell_index_contents : forall adds, Forall good_pair adds ->
+  let tree := fst (ci_Build adds) in let rs := snd (ci_Build adds) in
+  forall l1 rn rn' l2 x, rs = l1 ++ rn :: rn' :: l2 -> leaf x -> fst rn <= x < fst rn' ->
+  let reported := fst (ci_visit tree rs ci_new (Z.of_nat (length l1))) in
+  Permutation reported (filter (covers_pair x) adds) /\ StronglySorted nested_pair reported.
+Proof. exact index_contents. Qed.
+Print Assumptions cell_index_contents.
 
-  TODO find_spec (s2/s2intersect/s2intersect.go Find; missing: a model of the limit sweep):
-    for normalized unions cus, Find cus returns for each index set S with |S| >= 2 that occurs exactly
-    the leaves covered by precisely the unions in S, as a normalized non-empty union; nothing else. *)
+Theorem cell_index_nonempty_iteration : forall adds, Forall good_pair adds ->
+  let rs := snd (ci_Build adds) in let n := Z.of_nat (length rs) in
+  let l := visit_all rs (length rs) (ri_Begin rs true) in
+  (StronglySorted Z.lt l /\ forall j, In j l <-> 0 <= j < n - 1 /\ ri_IsEmpty rs j = false) /\
+  (ri_IsEmpty rs (n - 1) = true /\ ri_StartID rs (n - 1) = end_leaf).
+Proof. intros adds H. split; [exact (index_nonempty_iteration adds H)|exact (index_sentinel_empty adds H)]. Qed.
+Print Assumptions cell_index_nonempty_iteration.
+
+Theorem cell_index_seek : forall adds, Forall good_pair adds ->
+  let rs := snd (ci_Build adds) in let n := Z.of_nat (length rs) in
+  forall t, first_leaf <= t < end_leaf ->
+  let p := ri_Seek rs false t in
+  0 <= p < n - 1 /\ ri_StartID rs p <= t < ri_LimitID rs p /\
+  let q := ri_Seek rs true t in
+  p <= q <= n - 1 /\ (q < n - 1 -> ri_IsEmpty rs q = false) /\ forall j, p <= j < q -> ri_IsEmpty rs j = true.
+Proof. exact index_seek. Qed.
+Print Assumptions cell_index_seek.
+
+Theorem cell_index_sweep_reports_each_pair_exactly_once : forall adds, Forall good_pair adds ->
+  let tree := fst (ci_Build adds) in let rs := snd (ci_Build adds) in let n := Z.of_nat (length rs) in
+  forall poss, (forall p, In p poss -> 0 <= p < n) -> StronglySorted Z.le poss ->
+  exists idxs, ci_sweep tree rs ci_new poss = map (pairs_of tree) idxs /\ NoDup (concat idxs) /\
+    forall i, In i (concat idxs) <-> in_chains tree rs poss i.
+Proof. exact index_sweep_exactly_once. Qed.
+Print Assumptions cell_index_sweep_reports_each_pair_exactly_once.
+
+Theorem cell_index_backward_move_reports_everything : forall adds, Forall good_pair adds ->
+  let tree := fst (ci_Build adds) in let rs := snd (ci_Build adds) in let n := Z.of_nat (length rs) in
+  forall st j s, 0 <= j < n -> is_chain tree (cont_at rs j) s ->
+  -1 <= ci_cutoff st -> ri_StartID rs j < ci_prevStart st ->
+  fst (ci_visit tree rs st j) = pairs_of tree s.
+Proof. exact index_backward_reports_all. Qed.
+Print Assumptions cell_index_backward_move_reports_everything.
+
+(** * s2intersect.Find (model Model/Intersect.v) -----------------------------------
+    [members cus x] = the sorted list of the indices of the unions covering leaf x. *)
+Theorem find_spec : forall cus, Forall (Forall valid) cus ->
+  let R := s2i_Find cus in
+  (forall S cells, In (S, cells) R ->
+      (2 <= length S)%nat /\ normal cells /\ cells <> [] /\
+      forall x, leaf x -> (cov cells x <-> members cus x = S)) /\
+  (forall x, leaf x -> (2 <= length (members cus x))%nat -> exists cells, In (members cus x, cells) R) /\
+  NoDup (map fst R).
+Proof. exact C11_Find.find_spec. Qed.
+Print Assumptions find_spec.
+
+(** the code before commit aa117fb (intervalOverlaps without the [lastStart <= endLeaf] guard)
+    violates [find_spec]: it returns an index set with an empty cell union *)
+Theorem find_old_refuted : exists cus, Forall (Forall valid) cus /\ exists S, In (S, []) (s2i_Find_old cus).
+Proof. exact C11_Find.find_old_refuted. Qed.
+Print Assumptions find_old_refuted.
